@@ -298,7 +298,7 @@ func (t *Template) parseTemplate(cacheAfterParsing bool) (next Node) {
 
 	for t.peek().typ != itemEOF {
 		switch n := t.textOrAction(); n.Type() {
-		case nodeEnd, nodeElse, nodeContent:
+		case nodeEnd, nodeElse, nodeContent, nodeCatch:
 			t.errorf("unexpected %s", n)
 		default:
 			t.Root.append(n)
@@ -499,6 +499,10 @@ func (t *Template) itemList(terminatedBy ...NodeType) (list *ListNode, next Node
 			if n.Type() == terminatorType {
 				return list, n
 			}
+		}
+		switch n.Type() {
+		case nodeEnd, nodeElse, nodeContent, nodeCatch:
+			t.errorf("unexpected %s", n)
 		}
 		list.append(n)
 	}
